@@ -17,6 +17,9 @@ package workceptor
 //@ iface BaseWorkUnitForWorkUnit.GetStatusCopy
 //@   params b
 //@   modifies nothing
+//@ iface BaseWorkUnitForWorkUnit.GetWorkceptor
+//@   params b
+//@   pure
 //@ iface BaseWorkUnitForWorkUnit.GetStatusLock
 //@   params b
 //@   pure
@@ -449,6 +452,7 @@ package workceptor
 //@ func saveStdoutSize
 //@   tags C14 C13
 //@   site call UpdateFullStatus VIALOCK: [C14] requires arg1 == path.Join2(unitdir, "status")
+//@   ensures ONEUPDATE: [C14] result == lastcall("UpdateFullStatus", 0)
 //@ func saveStdoutSize$1
 //@   tags C13 C14
 //@   requires status != nil
@@ -464,3 +468,35 @@ package workceptor
 //@   site call Write THEDATA: [C05] requires arg0 == p
 //@   site call saveStdoutSize GROWS: [C13 C05] requires arg0 == sw.unitdir && arg1 == sw.bytesWritten && sw.bytesWritten == old(sw.bytesWritten) + lastcall("Write", 0) && lastcall("Write", 0) > 0
 //@   ensures COUNT: [C05] result.0 == lastcall("Write", 0)
+
+// ---- C04 / C15 / C19: starting a remote unit: the submit command names the bound node, work type and TLS profile and
+// ---- carries a token made for that node when signing is on; the remote unit's ID is recorded in the status record
+// ---- as soon as the remote node has announced it - before the input is sent - and RemoteStarted only at the end
+//@ func (*remoteUnit).startRemoteUnit
+//@   tags C04 C15
+//@   requires rw != nil && conn != nil && reader != nil
+//@   ghostflag bound set call:UpdateFullStatus
+//@   site call createSignature FORTHATNODE: [C15] requires arg1 == red.RemoteNode && red.SignWork
+//@   site call Open BINDINGRECORDEDFIRST: [C04] requires flag("bound") && arg0 == path.Join2(lastcall("UnitDir", 0), "stdin")
+//@   site call Copy THEINPUT: [C04] requires arg0 == conn && arg1 == box(lastcall("Open", 0)) && lastcall("Open", 1) == nil
+//@   ensures STARTED: [C04] result == nil ==> flag("bound") && lastcall("Copy", 1) == nil
+//@ func (*remoteUnit).startRemoteUnit$1
+//@   tags C04
+//@   requires status != nil
+//@   ensures BINDING: [C04] typeis(status.ExtraData, "*RemoteExtraData") ==> unbox(status.ExtraData, "*RemoteExtraData").RemoteUnitID == red.RemoteUnitID
+//@ func (*remoteUnit).startRemoteUnit$2
+//@   tags C04
+//@   requires status != nil
+//@   ensures MARKED: [C04] typeis(status.ExtraData, "*RemoteExtraData") ==> unbox(status.ExtraData, "*RemoteExtraData").RemoteStarted
+
+// the basic update is always the locked read-modify-write of UpdateFullStatus, whatever this object believes the
+// record contains
+//@ func (*StatusFileData).UpdateBasicStatus
+//@   tags C14 C13
+//@   requires sfd != nil
+//@   site call UpdateFullStatus SAMEFILE: [C14] requires arg0 == sfd && arg1 == filename
+//@   ensures ALWAYSLOCKED: [C14] result == lastcall("UpdateFullStatus", 0)
+//@ func (*StatusFileData).UpdateBasicStatus$1
+//@   tags C13 C14
+//@   requires status != nil
+//@   ensures SETS: [C13] status.State == state && status.Detail == detail && (stdoutSize >= 0 ==> status.StdoutSize == stdoutSize) && (stdoutSize < 0 ==> status.StdoutSize == old(status.StdoutSize))
